@@ -78,6 +78,9 @@ Verdict(c) ==
      ELSE IF "shape" \in c.checks /\ ~Shape(c, all) THEN "row-width-differs-from-field-list"
      ELSE IF "ordered" \in c.checks /\ ~Ordered(c) THEN "not-a-sorted-permutation"
      ELSE IF "sliced" \in c.checks /\ ~Sliced(c) THEN "not-the-requested-slice"
+     \* runs with one storage call failing: the statement fails with that error (C13, judged here for aggregates, whose result
+     \* would otherwise silently cover only part of the group)
+     ELSE IF \E x \in 1..Len(c.runs) : c.runs[x].role = "faulted" /\ ~(c.runs[x].phase = "failed" /\ c.runs[x].errkind = "fault") THEN "storage-error-not-surfaced"
      ELSE IF "contract" \in c.checks THEN
           LET base == BaseRows(c.stmt, c.store) IN
           IF ErrExpectedB(c.stmt, c.store, base) /\ ~c.stmt.lim.has /\ ~IsAggStmt(c.stmt) THEN
